@@ -43,7 +43,7 @@ assert ap.returncode == 0, ap.stderr
 try:
     out = sh(f"cd /verif && HSA_NO_CANARY=1 {PY} -m hsa check all", timeout=600).stdout
 finally:
-    sh("git -C /repo checkout -- .")
+    sh("git -C /repo checkout -- . && git -C /repo clean -fdq src")
 sh("cd /verif && git checkout -- evidence 2>/dev/null; rm -f /verif/evidence/*.findings.json")
 viol = re.findall(r"VIOLATION property=(C\d+)", out)
 errs = re.findall(r"ANALYSIS-ERROR property=(C\d+)", out)
